@@ -83,11 +83,13 @@ func (s *socket) RecvMsg() (*protocol.Message, error) {
 	// based on socket pipes.
 
 	timeQ := nilQ
+	s.Lock()
+	if s.recvExpire > 0 {
+		timeQ = time.After(s.recvExpire)
+	}
+	s.Unlock()
 	for {
 		s.Lock()
-		if timeQ == nil && s.recvExpire > 0 {
-			timeQ = time.After(s.recvExpire)
-		}
 		recvQ := s.recvQ
 		sizeQ := s.sizeQ
 		closeQ := s.closeQ
